@@ -47,7 +47,7 @@ type Case struct {
 type Out struct {
 	ID      int      `json:"id"`
 	Fired   [][2]bool `json:"fired"`  // first entry = start of the call
-	Acts    []int    `json:"acts"`   // 0 nothing, 1 ordinary, 2 fault, 3 reducer write
+	Acts    []int    `json:"acts"`   // 0 nothing, 1 ordinary, 2 panic / context end, 3 reducer write, 4 cancel call, 5 the generator function returns
 	Events  [][]any  `json:"events"` // the events actually issued (given ones + tail)
 	Result  []any    `json:"result"` // nil: the call did not return
 	Mapped  []int    `json:"mapped"`
@@ -166,6 +166,9 @@ func (r *runner) exitMap() {
 // kind of the next action of a parked thread (for the acts log)
 func (r *runner) kindOf(t *thread, isRed bool) int {
 	if t.pos >= len(t.script) {
+		if t == r.gen {
+			return 5
+		}
 		return 1
 	}
 	switch t.script[t.pos][0].(string) {
@@ -175,7 +178,7 @@ func (r *runner) kindOf(t *thread, isRed bool) int {
 		if r.foreach {
 			return 1
 		}
-		return 2
+		return 4
 	case "write":
 		if isRed && !r.void && !r.foreach {
 			return 3
@@ -464,7 +467,42 @@ func runCase(c Case) Out {
 		returned.Store(true)
 	}()
 
-	quiesce := func() bool { return hx.Quiesce(busy, 10*time.Second) }
+	// quiescence: no goroutine (other than the controller) is running or runnable in three consecutive
+	// stop-the-world snapshots with yields in between (a single quiet snapshot was once followed by further
+	// progress on a machine with load > 100); the waits between snapshots grow with the time a snapshot takes
+	quiesce := func() bool {
+		deadline := time.Now().Add(10 * time.Second)
+		stable := 0
+		for spin := 0; ; spin++ {
+			t0 := time.Now()
+			any := false
+			for _, g := range hx.Stacks() {
+				if busy(g) {
+					any = true
+					break
+				}
+			}
+			took := time.Since(t0)
+			if !any {
+				stable++
+				if stable >= 3 {
+					return true
+				}
+				runtime.Gosched()
+				time.Sleep(20*time.Microsecond + took/2)
+				continue
+			}
+			stable = 0
+			if time.Now().After(deadline) {
+				return false
+			}
+			if spin < 20 {
+				runtime.Gosched()
+			} else {
+				time.Sleep(50*time.Microsecond + took/2)
+			}
+		}
+	}
 
 	if free {
 		// free-running mode: context events fire after a short pause
